@@ -125,7 +125,10 @@ void h_run(void) {
   sim_nontrivial();
   int tso = wl_pct(40);
   tso_mode = tso;
-  if (tso) sim_tso_enable(); /* atomic stores weaker than seq_cst may linger in a store buffer (x86-TSO) */
+  if (tso) { /* stores weaker than seq_cst (half of the time plain stores too) may linger in a store buffer (x86-TSO) */
+    if (wl_pct(50)) sim_tso_enable_plain();
+    else sim_tso_enable();
+  }
   sim_probe("tso_runs", tso);
   dq = wsd_work_stealing_deque_create();
   sim_preempt_off();
